@@ -183,7 +183,12 @@ class ConnDriver:
                 self.do_IssueCall(k, k % 2 == 0)
         hooks = [x for x in self.cbs if self.proxies.get(x) is self.conn and self.cbfn.get(x) in self.conn._dcCallbacks] \
             if hasattr(self, 'cbfn') else []
-        if hooks and len(R) % 2 == 1:
+        # ... or from the disconnect callback of a live PROXY, when there is one and no connection-level callback
+        phooks = [x for x in self.cbs if x in self.proxies and self.proxies[x] is not self.conn and
+                  self.cbfn.get(x) in (getattr(self.proxies[x], '_disconnectCBs', None) or [])] if hasattr(self, 'cbfn') else []
+        if not hooks and phooks:
+            hooks = phooks[:1]
+        if hooks and (len(R) % 2 == 1 or hooks == phooks[:1]):
             self.reissue_from = hooks[0]
             self.reissue = reissue
         else:
